@@ -61,7 +61,7 @@ fn analyze_with_outer<'p>(
     Analyzer::new(program).analyze(root, env)
 }
 
-// @harness id=c09_local_scope props=C09 tier=quick cap=1500
+// @harness id=c09_local_scope props=C09 tier=quick cap=1500 fs=64
 // @desc Analyzer on `local X = E1, Y = E2; B` with X, Y, E1, E2, B symbolic names (E1, E2, B are variable references; one of the four names is never bound; the outer scope holds `c` or not): rejected as RepeatedLocalName iff X == Y, else as UnknownVariable iff one of the three references names neither X, Y nor an outer variable (bindings are mutually recursive: E1 may use Y), else accepted
 // @bound one template, 5 symbolic names over 4 identifiers, symbolic outer scope
 // @funcs Analyzer::analyze, Analyzer::analyze_expr (Local, Ident arms)
@@ -98,7 +98,7 @@ fn c09_local_scope() {
 }
 }
 
-// @harness id=c09_function_scope props=C09 tier=quick cap=1500
+// @harness id=c09_function_scope props=C09 tier=quick cap=1500 fs=64
 // @desc Analyzer on `function(P, Q = D) B` with symbolic parameter names and references: RepeatedParamName iff P == Q; else UnknownVariable iff the default D or the body B names neither P, Q nor an outer variable (a default may refer to any parameter); else accepted
 // @bound one template, 4 symbolic names over 4 identifiers
 // @funcs Analyzer::analyze_function, Analyzer::analyze_expr (Func arm)
@@ -135,7 +135,7 @@ fn c09_function_scope() {
 }
 }
 
-// @harness id=c09_object_scope props=C09 tier=attempt cap=5400 mem=40
+// @harness id=c09_object_scope props=C09 tier=attempt cap=5400 fs=64 mem=40
 // @desc Analyzer on `{ local L = E, [K]: V, F1: W, F2: null }` with symbolic names: the computed field name K is resolved in the OUTER scope (it sees neither L nor self), the local's value, and the field bodies see L; RepeatedFieldName iff the two fixed names F1 == F2; the first failing site in source order decides the error
 // @bound one template, 6 symbolic names over 4 identifiers
 // @funcs Analyzer::analyze_objinside, Analyzer::analyze_expr
@@ -175,7 +175,7 @@ fn c09_object_scope() {
 }
 }
 
-// @harness id=c09_comprehension_scope props=C09 tier=attempt cap=5400 mem=40
+// @harness id=c09_comprehension_scope props=C09 tier=attempt cap=5400 fs=64 mem=40
 // @desc Analyzer on `[B for I in A1 for J in A2 if C]` with symbolic names: clauses bind left to right - A1 sees only the outer scope, A2 sees I, the condition and the body see I and J (a later binder may shadow an earlier one: no repetition error)
 // @bound one template, 6 symbolic names over 4 identifiers
 // @funcs Analyzer::analyze_comp_spec, Analyzer::analyze_expr (ArrayComp arm)
@@ -212,7 +212,7 @@ fn c09_comprehension_scope() {
 }
 }
 
-// @harness id=c09_comprehension_single props=C09 tier=quick cap=1500
+// @harness id=c09_comprehension_single props=C09 tier=attempt cap=1500 fs=64
 // @desc Analyzer on `[B for I in A]` with symbolic names: the generator's source A is resolved in the OUTER scope only (it does not see its own variable I), the body B sees I and the outer scope
 // @bound one template, 3 symbolic names over 4 identifiers, symbolic outer scope
 // @funcs Analyzer::analyze_comp_spec, Analyzer::analyze_expr (ArrayComp arm)
@@ -243,7 +243,7 @@ fn c09_comprehension_single() {
 }
 }
 
-// @harness id=c09_objcomp_field_name props=C09 tier=quick cap=1500
+// @harness id=c09_objcomp_field_name props=C09 tier=attempt cap=1500 fs=64
 // @desc Analyzer on the object comprehension `{ local V = null, [E]: W for K in A }` with symbolic names: the computed field name E is resolved in the comprehension scope (outer variables and K) and does NOT see the object local V, while the field body W sees V, K and the outer scope
 // @bound one template, 5 symbolic names over 4 identifiers, symbolic outer scope
 // @funcs Analyzer::analyze_objinside (ObjInside::Comp), Analyzer::analyze_comp_spec
@@ -278,7 +278,7 @@ fn c09_objcomp_field_name() {
 }
 }
 
-// @harness id=c09_import_path props=C09 tier=quick cap=1500
+// @harness id=c09_import_path props=C09 tier=attempt cap=1500 fs=64
 // @desc Analyzer on `if false then import E else null` / `importstr E` with E a string literal, a text block or another expression: accepted / TextBlockAsImportPath / ComputedImportPath - the computed path is rejected although the branch can never be evaluated
 // @bound 3 path kinds x 2 import kinds, inside a dead branch
 // @funcs Analyzer::analyze_expr (Import, ImportStr, If arms)
@@ -315,7 +315,7 @@ fn c09_import_path() {
 }
 }
 
-// @harness id=c09_positional_after_named props=C09 tier=quick cap=1500
+// @harness id=c09_positional_after_named props=C09 tier=attempt cap=1500 fs=64
 // @desc Analyzer on `null(A1, A2)` where the SECOND argument is symbolically positional or named and the first is named: PositionalArgAfterNamed iff the second is positional; the argument names are symbolic
 // @bound 2 arguments (first named), symbolic names
 // @funcs Analyzer::analyze_expr (Call arm)
@@ -344,7 +344,7 @@ fn c09_positional_after_named() {
 }
 }
 
-// @harness id=c09_self_outside_object props=C09 tier=attempt cap=5400 mem=40
+// @harness id=c09_self_outside_object props=C09 tier=attempt cap=5400 fs=64 mem=40
 // @desc Analyzer on `local a = (self | $ | super.a | "a" in super); null` outside any object, and on `{ [self|$]: null }` (computed field name of a top-level object): rejected with Self/Dollar/SuperOutsideObject even though the binding is never used; the same references inside a field body `{ a: (self | $ | super.a) }` are accepted
 // @bound 4 reference kinds x 3 positions
 // @funcs Analyzer::analyze_expr (SelfObj, Dollar, SuperField, InSuper arms), Analyzer::analyze_objinside
@@ -403,7 +403,7 @@ fn c09_self_outside_object() {
 }
 }
 
-// @harness id=c09_must_fail props=C09 tier=quick cap=1500 expect=fail
+// @harness id=c09_must_fail props=C09 tier=quick cap=1500 fs=64 expect=fail
 // @desc vacuity twin of the scoping harnesses
 eval_stubs! {
 #[kani::proof]
